@@ -140,6 +140,10 @@ func (tcSuite) Run(h map[string]string, ops []string) []string {
 				if err := json.Unmarshal(b, &m); err != nil {
 					return "json-error"
 				}
+				// ... and the gate is restored from its own JSON: a round trip must change nothing
+				if err := json.Unmarshal(b, tc); err != nil {
+					return "json-error"
+				}
 				next := "zero"
 				if !m.NextOpenTime.IsZero() {
 					next = strconv.FormatInt(int64(m.NextOpenTime.Sub(origin)), 10)
